@@ -77,7 +77,7 @@ class _CodeValidator(ast.NodeVisitor):
     self.verify(
         node,
         permissions.CodePermission.ASSIGN,
-        (ast.Assign),
+        (ast.Assign, ast.AugAssign, ast.AnnAssign, ast.NamedExpr),
         'Assignment is not allowed.',
     )
 
@@ -85,21 +85,31 @@ class _CodeValidator(ast.NodeVisitor):
         node,
         permissions.CodePermission.CONDITION,
         # Match is not supported until Python 3.10.
-        (ast.If, getattr(ast, 'Match', None)),
+        (ast.If, ast.IfExp, getattr(ast, 'Match', None)),
         'Condition is not allowed.',
     )
 
     self.verify(
         node,
         permissions.CodePermission.LOOP,
-        (ast.For, ast.While, ast.AsyncFor, ast.AsyncWith),
+        (
+            ast.For,
+            ast.While,
+            ast.AsyncFor,
+            ast.AsyncWith,
+            ast.ListComp,
+            ast.SetComp,
+            ast.DictComp,
+            ast.GeneratorExp,
+        ),
         'Loop is not allowed.',
     )
 
     self.verify(
         node,
         permissions.CodePermission.EXCEPTION,
-        (ast.Try, ast.Raise, ast.Assert),
+        # TryStar (`except*`) is not available until Python 3.11.
+        (ast.Try, getattr(ast, 'TryStar', None), ast.Raise, ast.Assert),
         'Exception is not allowed.',
     )
 
